@@ -10,8 +10,10 @@ FUNCTIONS = SEGMENTS + [P + "ClientSSM.confirmation[SEGMENTED_REQUEST, SegmentAc
                         P + "ServerSSM.process_task[SEGMENTED_RESPONSE]", P + "ServerSSM.process_task[SEGMENTED_REQUEST]"] + CLIENT_START + SERVER_ANSWER
 LEMMAS = []
 MIN_OBLIGATIONS = 100
-BOUNDED = None
-ASSUMPTIONS = SSM_ASSUMPTIONS
+BOUNDED = "bounded.c05"
+ASSUMPTIONS = SSM_ASSUMPTIONS + [
+    "whole-system complement: two real stacks over a fault-injecting wire on a virtual clock (bounded stage): payload lengths around every boundary, windows 1..8, every single fault at every frame index must still succeed, random multi-fault runs, > 256 segments in the thorough tier",
+]
 NOT_DECIDED = [
     "'any single fault is repaired and the transaction still succeeds': the contracts show that a lost / duplicated / late frame never corrupts the payload (out-of-order and duplicate segments are refused, stale acks move nothing, timeouts retransmit exactly the outstanding window); that the two sides' timers always let the retransmission win is a whole-system timing claim outside per-call contracts",
     "the concatenation lemma (the slices [i*size:(i+1)*size], i < count, appended in order, give back the payload) is the textbook fact composing the sender and receiver contracts; it is stated, not machine-checked",
